@@ -37,15 +37,21 @@ def run(ctx):
     rel = os.path.join(ctx["harness_dir"], "target/release/p3r-harness")
     dbg_lines, dbg_crashes = run_profile(ctx, ctx["harness"], "debug", seed, nprog, out)
     rel_lines, rel_crashes = run_profile(ctx, rel, "release", seed, nprog, out)
-    dcase = {l.split()[1]: l for l in dbg_lines if l.startswith("case ")}
-    rcase = {l.split()[1]: l for l in rel_lines if l.startswith("case ")}
+    # cases are keyed by (program id, variant), not by their running number: a generated program that trips a
+    # *builder* debug assertion is discarded by the debug harness only, which shifts the numbering of one profile
+    def keyed(lines):
+        return {(l.split()[2], l.split()[3]): l for l in lines if l.startswith("case ")}
+    dcase, rcase = keyed(dbg_lines), keyed(rel_lines)
     hist = {}
+    hist["only-in-one-profile(builder debug assertion)"] = len(set(dcase) ^ set(rcase))
     for k, l in dcase.items():
         t = l.split()
         key = f"{t[3]}.{' '.join(t[4:6]) if t[4] == 'err' else t[4]}"
         hist[key] = hist.get(key, 0) + 1
         r = rcase.get(k)
-        if r != l:
+        if r is None:
+            continue
+        if r.split()[2:] != l.split()[2:]:
             violations.append({"class": "profile-divergence:" + t[3],
                                "what": f"debug and release builds disagree: debug={l!r} release={r!r}",
                                "replay": {"case": l, "release": r, "seed": seed, "programs": nprog}})
